@@ -125,6 +125,14 @@ func capDialogue(wanted, adv []string, saslKind int, reply int, outcome string, 
 		}
 		if reply == 3 {
 			d.raw(":irc.test CAP me NAK :"+strings.Join(requested, " "), "spec19end {out}")
+			if saslKind != 0 {
+				// the request was refused, sasl with it: nothing of the SASL exchange may follow, whatever the server says next
+				rep := d.raw("AUTHENTICATE +")
+				if out, _ := drv.UnL(outOf(rep)); len(out) > 0 {
+					d.cs.Reqs = append(d.cs.Reqs, "?spec19end "+outOf(rep)) // fails: judged against "exactly CAP END", which no AUTHENTICATE line is
+					d.cs.Impl = append(d.cs.Impl, "")
+				}
+			}
 		} else {
 			rep = d.raw(":irc.test CAP me ACK :"+strings.Join(acked, " "), fmt.Sprintf("spec19ack %s %s {out}", p.sasl, drv.L(acked)))
 			allAcks := append([]string(nil), acked...)
